@@ -458,8 +458,9 @@ fn main() {
     let k = 3;
     let srcs = sources(p, k);
     let deep_trees: Vec<(String, AstGrep<D>)> = if args.thorough() && p.lang == "javascript" {
-      // (4 siblings as top-level statements and as call arguments; block members stay at <= 3)
-      let two_wraps = LangPlan { lang: p.lang, stmts: p.stmts, sep: p.sep, wrap: &p.wrap[..2], atoms: p.atoms, kinds: p.kinds };
+      // (4 siblings as top-level statements only; call arguments and block members stay at <= 3:
+      // with 7 statements and 8 atoms two wrappers took the tier to 19 min)
+      let two_wraps = LangPlan { lang: p.lang, stmts: p.stmts, sep: p.sep, wrap: &p.wrap[..1], atoms: p.atoms, kinds: p.kinds };
       sources(&two_wraps, 4).into_iter().filter(|s| !srcs.contains(s)).map(|s| { let g = spec.lang.ast_grep(&s); (s, g) }).collect()
     } else {
       vec![]
